@@ -512,6 +512,13 @@ public:
         J.attribute("static", MD->isStatic());
         if (MD->getParent()->isLambda())
           J.attribute("lambda_class", id(MD->getParent()->getCanonicalDecl()));
+        if (const auto *CTS = dyn_cast<ClassTemplateSpecializationDecl>(MD->getParent()))
+        {
+          J.attributeArray("rec_targs", [&] {
+            for (const TemplateArgument &A : CTS->getTemplateArgs().asArray())
+              emitTArg(A);
+          });
+        }
         if (MD->isCopyAssignmentOperator())
           J.attribute("assign_kind", "copy");
         if (MD->isMoveAssignmentOperator())
